@@ -12,10 +12,13 @@ from checks import c01
 
 
 def run(ctx):
+    if ctx.replay:
+        return sem.replay(ctx, ctx.replay, mode="bt")
     chains, sim, nexh = c01.chains_for(ctx, ctx.tier == "thorough")
     if ctx.tier != "thorough":
         sim = sim[:80]
     items = [list(c) for c in chains] + [list(c) for c in sim]
+    items += [c for c in sem.pinned_chains(ctx.prop) if list(c) not in items]
     sem.taint_flow_check(ctx, items,
                          lambda ch, name: semgen.build_chain(ch, name=name, sink_kind="bt", source_kind="origin"),
                          nexh, len(sim), mode="bt",
